@@ -380,6 +380,9 @@ func c07EntryMenu(n int, thorough bool) []c07EntryOpt {
 			out = append(out, c07EntryOpt{p, r})
 		}
 	}
+	// ... and the PID values that have a meaning of their own elsewhere, as PMT PIDs of a program (any PID
+	// may be named by an entry): 0 (the PAT's own PID) and 1, with reserved bits set
+	out = append(out, c07EntryOpt{0x0000, 7}, c07EntryOpt{0x0001, 7})
 	return out
 }
 
@@ -1025,7 +1028,7 @@ func init() {
 		Scenarios: []engine.ScenarioRunner{
 			&engine.Enum[c07SecCase]{
 				Name: "sections",
-				Rule: "case = one program_number sequence of 0..4 entries (thorough 0..6) over {0,1,2,0xFFFF} with distinct non-zero numbers x one of 4 (transport_stream_id, version, current_next, cc) patterns, rotating through 5 (section_number, last_section_number) pairs {0/0, 1/1, 0/255, 3/7, 0/1}; Check runs the full product of per-entry (PID in {0x10,0x100,0x1FFF,0x0FFF}, reserved bits in {111,000}) (thorough: 8 PIDs up to 3 entries, reserved {111,000,101}; 5-6 entries: cyclic covering family + single deviations) through 6 carriers: payload bytes, payload + 1/3 stuffing bytes, 188-byte packet (payload padded / adaptation-field stuffing), ReadPAT on the one-packet stream; each carrier: NumPrograms, ProgramMap (exact map), SPTSpmtPID (value or failure), IsPMT on every entry PID, +-1, bit-12 flip, low byte, 0, 1, 0x1FFF; non-trivial = each distinct section",
+				Rule: "case = one program_number sequence of 0..4 entries (thorough 0..6) over {0,1,2,0xFFFF} with distinct non-zero numbers x one of 4 (transport_stream_id, version, current_next, cc) patterns, rotating through 5 (section_number, last_section_number) pairs {0/0, 1/1, 0/255, 3/7, 0/1}; Check runs the full product of per-entry (PID in {0x10,0x100,0x1FFF,0x0FFF}, reserved bits in {111,000}; plus PID 0 - the PAT's own - and 1 as a program's PMT PID) (thorough: 8 PIDs up to 3 entries, reserved {111,000,101}; 5-6 entries: cyclic covering family + single deviations) through 6 carriers: payload bytes, payload + 1/3 stuffing bytes, 188-byte packet (payload padded / adaptation-field stuffing), ReadPAT on the one-packet stream; each carrier: NumPrograms, ProgramMap (exact map), SPTSpmtPID (value or failure), IsPMT on every entry PID, +-1, bit-12 flip, low byte, 0, 1, 0x1FFF; non-trivial = each distinct section",
 				Gen:  c07GenSections, Check: witnessEnum(c07CheckSections, witnessPSI), Batch: 1,
 			},
 			&engine.Enum[c07BigCase]{
